@@ -103,6 +103,30 @@ var catNested = []func() nested{
 		return nested{S: stru{A: 1}, L: []stru{{B: "x"}, {C: []int{9}}}, M: map[string][]string{"k": {"v"}}, By: []byte{0, 255, 7}}
 	},
 }
+
+type myStr string
+type myBytes []byte
+
+var catTime = []func() time.Time{
+	func() time.Time { return time.Time{} },
+	func() time.Time { return time.Unix(0, 0).UTC() },
+	func() time.Time { return time.Date(2024, 2, 29, 23, 59, 59, 999999999, time.UTC) },
+	func() time.Time { return time.Date(1999, 12, 31, 1, 2, 3, 4000, time.FixedZone("X", 5*3600+1800)) },
+	func() time.Time { return time.Date(10000, 1, 1, 0, 0, 0, 0, time.UTC) }, // json.Marshal: year outside [0,9999]
+}
+var catPtr = []func() *stru{
+	func() *stru { return nil },
+	func() *stru { return &stru{} },
+	func() *stru { return &stru{A: 3, B: "p", C: []int{1}, D: map[string]int{"k": 2}, E: 2.5, F: true} },
+}
+var catStructs = []func() []stru{
+	func() []stru { return nil },
+	func() []stru { return []stru{} },
+	func() []stru { return []stru{{A: 1}, {B: "two", C: []int{2, 2}}, {}} },
+}
+var catMyStr = []func() myStr{func() myStr { return "" }, func() myStr { return "named \"s\"" }, func() myStr { return "\xff" }}
+var catMyBytes = []func() myBytes{func() myBytes { return nil }, func() myBytes { return myBytes{} }, func() myBytes { return myBytes{0, 1, 254, 255} }}
+var catArr = []func() [3]int{func() [3]int { return [3]int{} }, func() [3]int { return [3]int{-1, 0, math.MaxInt64} }}
 var catChan = []func() chan int{func() chan int { return nil }, func() chan int { return make(chan int) }}
 
 // ---------- per-type operations ----------
@@ -137,14 +161,28 @@ func (o ops[T]) mk(s string) T {
 	return o.parse(s)
 }
 
+// rep: 1 = json.Unmarshal(json.Marshal(x)) into the zero value gives x back (encoding/json alone, sqlx not involved),
+// 0 = it does not, e = Marshal fails
+func (o ops[T]) rep(v T) string {
+	b, err := json.Marshal(v)
+	if err != nil {
+		return "e"
+	}
+	var z T
+	if err := json.Unmarshal(b, &z); err != nil || o.show(z) != o.show(v) {
+		return "0"
+	}
+	return "1"
+}
+
 func (o ops[T]) catalogue() []string {
 	var out []string
 	if o.isJS {
 		var zero T
-		out = append(out, fmt.Sprintf("%s #z %s", o.name, o.show(zero)))
+		out = append(out, fmt.Sprintf("%s #z %s %s", o.name, o.show(zero), o.rep(zero)))
 	}
 	for i, f := range o.cat {
-		out = append(out, fmt.Sprintf("%s #%d %s", o.name, i, o.show(f())))
+		out = append(out, fmt.Sprintf("%s #%d %s %s", o.name, i, o.show(f()), o.rep(f())))
 	}
 	return out
 }
@@ -342,21 +380,22 @@ func (o ops[T]) scan(prior string, pv bool, key string, src any, pt []byte, have
 	if col.Key != key {
 		keyNote = " KEYCHANGED"
 	}
-	res := classify(err) + " val=" + o.name + "=" + o.show(col.Val) + " valid=" + b01(col.Valid)
+	res := o.decodeClass(classify(err), src) + " val=" + o.name + "=" + o.show(col.Val) + " valid=" + b01(col.Valid)
 	return res + " jdec=" + oracle + keyNote + o.srcNotes(src, before, res, func() string { return o.name + "=" + o.show(col.Val) },
 		func(s any) string {
 			c2 := &sqlx.EncryptColumn[T]{Val: o.mk(prior), Valid: pv, Key: key}
 			e2 := c2.Scan(s)
-			return classify(e2) + " val=" + o.name + "=" + o.show(c2.Val) + " valid=" + b01(c2.Valid)
+			return o.decodeClass(classify(e2), s) + " val=" + o.name + "=" + o.show(c2.Val) + " valid=" + b01(c2.Valid)
 		})
 }
 
 // srcNotes: the source of a Scan belongs to the driver (database/sql: the memory of a []byte source is only valid until
 // the next call).  The model treats byte strings as immutable values, i.e. Scan is a function of (column, source) that
 // leaves the source as it was and whose result does not depend on what happens to the source afterwards.  Observed here:
-//   SRCMUT      the []byte source was modified by Scan;
-//   RESCAN-DIFF scanning the very same slice a second time into an equal column gives another result;
-//   ALIAS       the value restored changes when the driver overwrites its buffer after the call.
+//
+//	SRCMUT      the []byte source was modified by Scan;
+//	RESCAN-DIFF scanning the very same slice a second time into an equal column gives another result;
+//	ALIAS       the value restored changes when the driver overwrites its buffer after the call.
 func (o ops[T]) srcNotes(src any, before []byte, first string, showVal func() string, again func(any) string) (notes string) {
 	b, isB := src.([]byte)
 	if !isB {
@@ -423,13 +462,26 @@ func (o ops[T]) jscan(prior string, pv bool, src any) (out string) {
 		before = append([]byte{}, b...)
 	}
 	err := col.Scan(src)
-	res := classify(err) + " val=" + o.name + "=" + o.show(col.Val) + " valid=" + b01(col.Valid)
+	res := o.decodeClass(classify(err), src) + " val=" + o.name + "=" + o.show(col.Val) + " valid=" + b01(col.Valid)
 	return res + " jdec=" + oracle + o.srcNotes(src, before, res, func() string { return o.name + "=" + o.show(col.Val) },
 		func(s any) string {
 			c2 := &sqlx.JsonColumn[T]{Val: o.mk(prior), Valid: pv}
 			e2 := c2.Scan(s)
-			return classify(e2) + " val=" + o.name + "=" + o.show(c2.Val) + " valid=" + b01(c2.Valid)
+			return o.decodeClass(classify(e2), s) + " val=" + o.name + "=" + o.show(c2.Val) + " valid=" + b01(c2.Valid)
 		})
+}
+
+// An error of no recognised class, returned for a []byte/string source into a JSON-typed T, can only come from the
+// decoding stage: json.Unmarshal passes the errors of UnmarshalJSON methods (time.Time) through unwrapped.
+func (o ops[T]) decodeClass(cls string, src any) string {
+	if cls != "err other" || !o.isJS {
+		return cls
+	}
+	switch src.(type) {
+	case []byte, string:
+		return "err json"
+	}
+	return cls
 }
 
 func unhex(h string) []byte {
@@ -465,18 +517,34 @@ func sUint[T ~uint | ~uint8 | ~uint16 | ~uint32 | ~uint64](v T) string {
 }
 
 var table = map[string]tyOps{
-	"str":   ops[string]{name: "str", parse: func(s string) string { return string(unhex(s)) }, show: func(v string) string { return hex.EncodeToString([]byte(v)) }},
-	"bytes": ops[[]byte]{name: "bytes", parse: func(s string) []byte { return unhex(s) }, show: func(v []byte) string { return hex.EncodeToString(v) }},
-	"i8":    ops[int8]{name: "i8", parse: func(s string) int8 { return int8(pInt(s, 8)) }, show: sInt[int8]},
-	"i16":   ops[int16]{name: "i16", parse: func(s string) int16 { return int16(pInt(s, 16)) }, show: sInt[int16]},
-	"i32":   ops[int32]{name: "i32", parse: func(s string) int32 { return int32(pInt(s, 32)) }, show: sInt[int32]},
-	"i64":   ops[int64]{name: "i64", parse: func(s string) int64 { return pInt(s, 64) }, show: sInt[int64]},
-	"int":   ops[int]{name: "int", parse: func(s string) int { return int(pInt(s, 64)) }, show: sInt[int]},
-	"u8":    ops[uint8]{name: "u8", parse: func(s string) uint8 { return uint8(pUint(s, 8)) }, show: sUint[uint8]},
-	"u16":   ops[uint16]{name: "u16", parse: func(s string) uint16 { return uint16(pUint(s, 16)) }, show: sUint[uint16]},
-	"u32":   ops[uint32]{name: "u32", parse: func(s string) uint32 { return uint32(pUint(s, 32)) }, show: sUint[uint32]},
-	"u64":   ops[uint64]{name: "u64", parse: func(s string) uint64 { return pUint(s, 64) }, show: sUint[uint64]},
-	"uint":  ops[uint]{name: "uint", parse: func(s string) uint { return uint(pUint(s, 64)) }, show: sUint[uint]},
+	"str": ops[string]{name: "str", parse: func(s string) string { return string(unhex(s)) }, show: func(v string) string { return hex.EncodeToString([]byte(v)) }},
+	"bytes": ops[[]byte]{name: "bytes",
+		parse: func(s string) []byte { // "nil" = []byte(nil); "" = empty but non-nil
+			if s == "nil" {
+				return nil
+			}
+			b := unhex(s)
+			if b == nil {
+				b = []byte{}
+			}
+			return b
+		},
+		show: func(v []byte) string {
+			if v == nil {
+				return "nil"
+			}
+			return hex.EncodeToString(v)
+		}},
+	"i8":   ops[int8]{name: "i8", parse: func(s string) int8 { return int8(pInt(s, 8)) }, show: sInt[int8]},
+	"i16":  ops[int16]{name: "i16", parse: func(s string) int16 { return int16(pInt(s, 16)) }, show: sInt[int16]},
+	"i32":  ops[int32]{name: "i32", parse: func(s string) int32 { return int32(pInt(s, 32)) }, show: sInt[int32]},
+	"i64":  ops[int64]{name: "i64", parse: func(s string) int64 { return pInt(s, 64) }, show: sInt[int64]},
+	"int":  ops[int]{name: "int", parse: func(s string) int { return int(pInt(s, 64)) }, show: sInt[int]},
+	"u8":   ops[uint8]{name: "u8", parse: func(s string) uint8 { return uint8(pUint(s, 8)) }, show: sUint[uint8]},
+	"u16":  ops[uint16]{name: "u16", parse: func(s string) uint16 { return uint16(pUint(s, 16)) }, show: sUint[uint16]},
+	"u32":  ops[uint32]{name: "u32", parse: func(s string) uint32 { return uint32(pUint(s, 32)) }, show: sUint[uint32]},
+	"u64":  ops[uint64]{name: "u64", parse: func(s string) uint64 { return pUint(s, 64) }, show: sUint[uint64]},
+	"uint": ops[uint]{name: "uint", parse: func(s string) uint { return uint(pUint(s, 64)) }, show: sUint[uint]},
 	"f32": ops[float32]{name: "f32", parse: func(s string) float32 { return math.Float32frombits(uint32(pUint(s, 32))) },
 		show: func(v float32) string { return strconv.FormatUint(uint64(math.Float32bits(v)), 10) }},
 	"f64": ops[float64]{name: "f64", parse: func(s string) float64 { return math.Float64frombits(pUint(s, 64)) },
@@ -492,6 +560,21 @@ var table = map[string]tyOps{
 	"json:nan":    jsOps("json:nan", catNaN),
 	"json:myint":  jsOps("json:myint", catMyInt),
 	"json:nested": jsOps("json:nested", catNested),
+	"json:time": ops[time.Time]{name: "json:time", cat: catTime, isJS: true, // canonical text: instant + zone offset (no monotonic clock, no zone name)
+		show:  func(v time.Time) string { return hex.EncodeToString([]byte(v.Format(time.RFC3339Nano))) },
+		parse: func(string) time.Time { panic("catalogue only") }},
+	"json:ptr": ops[*stru]{name: "json:ptr", cat: catPtr, isJS: true, // the pointee, not the address
+		show: func(v *stru) string {
+			if v == nil {
+				return hex.EncodeToString([]byte("(*stru)(nil)"))
+			}
+			return hex.EncodeToString([]byte(fmt.Sprintf("&%#v", *v)))
+		},
+		parse: func(string) *stru { panic("catalogue only") }},
+	"json:structs": jsOps("json:structs", catStructs),
+	"json:mystr":   jsOps("json:mystr", catMyStr),
+	"json:mybytes": jsOps("json:mybytes", catMyBytes),
+	"json:arr":     jsOps("json:arr", catArr),
 	"json:chan": ops[chan int]{name: "json:chan", cat: catChan, isJS: true, // %#v of a channel is an address: canonicalise
 		show: func(v chan int) string {
 			if v == nil {
@@ -604,6 +687,10 @@ func Main(args []string) {
 		concMain(w, args[1:])
 		return
 	}
+	if len(args) > 0 && args[0] == "anyprobe" {
+		anyProbe(w)
+		return
+	}
 	if len(args) > 0 && args[0] == "concv" {
 		concvMain(w, args[1:])
 		return
@@ -612,5 +699,29 @@ func Main(args []string) {
 	sc.Buffer(make([]byte, 1<<20), 1<<26)
 	for sc.Scan() {
 		fmt.Fprintln(w, one(sc.Text()))
+	}
+}
+
+// anyProbe: EncryptColumn[any] — outside the T's the property lists; Value() switches on the DYNAMIC type of Val,
+// Scan() on the static type *any (JSON path).  Printed for the record (evidence), not compared.
+func anyProbe(w io.Writer) {
+	key := "0123456789abcdef"
+	for _, x := range []any{"123", "hello", 7, int8(1), 2.5, true, map[string]any{"a": "b"}, []byte("ab"), nil} {
+		func() {
+			defer func() {
+				if r := recover(); r != nil {
+					fmt.Fprintf(w, "any %s panic\n", hex.EncodeToString([]byte(anyRepr(x))))
+				}
+			}()
+			v, err := sqlx.EncryptColumn[any]{Val: x, Valid: true, Key: key}.Value()
+			d := &sqlx.EncryptColumn[any]{Key: key}
+			var err2 error
+			if err == nil {
+				err2 = d.Scan(v)
+			}
+			fmt.Fprintf(w, "any in=%s value=%s scan=%s out=%s valid=%s\n", hex.EncodeToString([]byte(anyRepr(x))),
+				strings.ReplaceAll(classify(err), " ", "-"), strings.ReplaceAll(classify(err2), " ", "-"),
+				hex.EncodeToString([]byte(anyRepr(d.Val))), b01(d.Valid))
+		}()
 	}
 }
